@@ -21,6 +21,8 @@ CONSTANTS
   SetOps = {}
   MatchSets = {}
   GroupIncs = {}
+  IgnEmpty = FALSE
+  DupLabels = FALSE
   Fixes = %s
   DBSeries = 0
   DBA = {}
@@ -52,7 +54,7 @@ BASE = dict(
     MaxDepth=1, MaxStack=2, MaxBinNest=1,
     MatcherKinds=S("none", "eq"), MatcherKindsB=S("none"), Leaves=S("sel"), UnFns=S(), AggOps=S("sum"),
     AggLabelSets=S(S("a")), ArithOps=S("*"), CmpOps=S(), SetOps=S("and"),
-    MatchSets=S(S(), S("a")), GroupIncs=S(), Fixes=S(),
+    MatchSets=S(S(), S("a")), GroupIncs=S(), IgnEmpty=False, DupLabels=False, Fixes=S(),
     DBSeries=1, DBA=S("x", "y"), DBB=S("x"), DBC=S(), DBVals=S(1),
 )
 
@@ -71,7 +73,12 @@ def cfg_text(consts, invariants, fixes=frozenset()):
 
 ALL_MATCH = S("none", "eq", "neq", "re", "nre", "empty", "nonempty", "reany", "reopt", "eqy")
 ALL_UN = S("abs", "neg", "scalar", "vecs", "absent", "rate", "lot", "lotsub", "absentot",
-           "lrepc", "lrepa", "lrepcx", "lrepdel", "lrepdelx", "ljoin", "ljoine")
+           "lrepc", "lrepa", "lrepcx", "lrepdel", "lrepdelx", "ljoin", "ljoine",
+           "sort", "clampmax", "round", "timestamp", "maxot", "countot", "presentot", "hq")
+# the unary constructors of phase 1 (depth-2 chains are exhaustive over these only)
+UN_P1 = S("abs", "neg", "scalar", "vecs", "absent", "rate", "lot", "lotsub", "absentot",
+          "lrepc", "lrepa", "lrepcx", "lrepdel", "lrepdelx", "ljoin", "ljoine")
+ALL_AGG = S("sum", "count", "topk", "cv", "group", "max", "min")
 
 ALL_CMP = S("==", "!=", ">", "<", ">=", "<=")
 ALL_AGGSETS = S(S(), S("a"), S("b"), S("a", "b"), S("c"))
@@ -87,8 +94,8 @@ MC_STATIC = dict(MaxDepth=2, MaxBinNest=1, MatcherKinds=S("none"), Leaves=S("num
                  ArithOps=S("+", "-"), CmpOps=ALL_CMP, SetOps=S("and", "or", "unless"), MatchSets=S(S()), GroupIncs=S(),
                  DBSeries=1, DBA=S(), DBB=S(), DBC=S(), DBVals=S(1))
 # exhaustive: every unary constructor over every leaf (depth 1), all matcher kinds, full single-series databases
-MC_UNARY = dict(MaxDepth=1, MaxStack=1, MatcherKinds=ALL_MATCH, MatcherKindsB=S("none", "eq", "empty"), Leaves=S("sel", "seloff", "num", "time", "vec"), UnFns=ALL_UN,
-                AggOps=S("sum", "count", "topk", "cv"), AggLabelSets=ALL_AGGSETS, ArithOps=S(), CmpOps=S(), SetOps=S(),
+MC_UNARY = dict(MaxDepth=1, MaxStack=1, DupLabels=True, MatcherKinds=ALL_MATCH, MatcherKindsB=S("none", "eq", "empty"), Leaves=S("sel", "seloff", "num", "time", "vec"), UnFns=ALL_UN,
+                AggOps=ALL_AGG, AggLabelSets=ALL_AGGSETS, ArithOps=S(), CmpOps=S(), SetOps=S(),
                 MatchSets=S(), GroupIncs=S(), DBSeries=1, DBA=S("x", "y"), DBB=S("x"), DBC=S("x"), DBVals=S(1, 2))
 # exhaustive, depth 1: every binary operator and modifier over leaves (reduced matcher kinds)
 MC_WIDE1 = dict(MaxDepth=1, MatcherKinds=S("none", "eq", "neq", "empty"), MatcherKindsB=S("none", "eq"), Leaves=S("sel", "num", "vec"), UnFns=S(),
@@ -111,9 +118,18 @@ MC_NESTBIN = dict(MaxDepth=2, MaxBinNest=2, MaxStack=3, MatcherKinds=S("none"), 
 MC_COND = dict(MaxDepth=2, MaxBinNest=2, MaxStack=2, MatcherKinds=S("none"), MatcherKindsB=S("none"), Leaves=S("sel", "num", "vec"), UnFns=S(),
                AggOps=S(), AggLabelSets=S(), ArithOps=S(), CmpOps=S(">"), SetOps=S("or", "unless", "and"), MatchSets=S(S()),
                GroupIncs=S(), DBSeries=1, DBA=S("x"), DBB=S(), DBC=S(), DBVals=S(1, 2))
+# exhaustive: group_left / group_right with include lists over a nested join (depth 2, nested binary nodes)
+MC_GRPNEST = dict(MaxDepth=2, MaxBinNest=2, MaxStack=3, MatcherKinds=S("none"), MatcherKindsB=S("none"), Leaves=S("sel"), UnFns=S(),
+                  AggOps=S(), AggLabelSets=S(), ArithOps=S("*"), CmpOps=S(), SetOps=S(), MatchSets=S(S("a")), GroupIncs=S(S("b")),
+                  DBSeries=1, DBA=S("x"), DBB=S("x"), DBC=S("x"), DBVals=S(1))
+# exhaustive: chains of label_replace / label_join / aggregation over a selector (depth 3, unary only)
+MC_LREPCHAIN = dict(MaxDepth=3, MaxStack=1, MatcherKinds=S("none", "eq"), MatcherKindsB=S("none"), Leaves=S("sel"),
+                    UnFns=S("lrepc", "lrepa", "lrepcx", "lrepdel", "lrepdelx", "ljoin", "ljoine"), AggOps=S("sum"),
+                    AggLabelSets=S(S("a"), S("c")), ArithOps=S(), CmpOps=S(), SetOps=S(), MatchSets=S(), GroupIncs=S(),
+                    DBSeries=1, DBA=S("x", "y"), DBB=S("x"), DBC=S(), DBVals=S(1))
 # simulation over the full vocabulary
 SIM_FULL = dict(MaxDepth=3, MaxBinNest=2, MaxStack=3, MatcherKinds=ALL_MATCH, MatcherKindsB=S("none", "eq", "empty"), Leaves=S("sel", "seloff", "num", "time", "vec"),
-                UnFns=ALL_UN, AggOps=S("sum", "count", "topk", "cv"), AggLabelSets=ALL_AGGSETS,
+                UnFns=ALL_UN, AggOps=ALL_AGG, AggLabelSets=ALL_AGGSETS, IgnEmpty=True, DupLabels=True,
                 ArithOps=S("+", "-", "*"), CmpOps=ALL_CMP, SetOps=S("and", "or", "unless"),
                 MatchSets=S(S(), S("a"), S("b"), S("a", "b")), GroupIncs=S(S(), S("b"), S("c")),
                 DBSeries=1, DBA=S("x"), DBB=S(), DBC=S(), DBVals=S(1))
@@ -124,7 +140,7 @@ def _sel(m, ma="none", mb="none"):
 
 
 def _agg(op, mod, ls, e):
-    return {"k": "agg", "op": op, "mod": mod, "ls": ls, "e": e}
+    return {"k": "agg", "op": op, "mod": mod, "ls": ls, "dup": False, "e": e}
 
 
 def _bin(op, vm, ls, l, r, grp="none", inc=(), bool_=False):
@@ -200,14 +216,17 @@ def tiers(thorough):
     if thorough:
         t_wide = dict(MC_WIDE1, MatcherKinds=S("none", "eq", "neq", "empty", "reopt"), MatcherKindsB=S("none", "empty"),
                       DBC=S(), DBVals=S(1))
-        return [("join", MC_JOIN, 6000), ("static", MC_STATIC, 3000), ("unary", dict(MC_UNARY, MaxDepth=2, DBVals=S(1), DBC=S()), 6000),
+        return [("join", MC_JOIN, 6000), ("static", MC_STATIC, 3000), ("unary", dict(MC_UNARY, DBVals=S(1)), 4000),
+                ("unary2", dict(MC_UNARY, MaxDepth=2, DBVals=S(1), DBC=S(), DupLabels=False, UnFns=UN_P1, AggOps=S("sum", "count", "topk", "cv")), 5000),
                 ("wide1", t_wide, 6000), ("nest", MC_NEST, 2000), ("nestbin", MC_NESTBIN, 2000),
-                ("cond", dict(MC_COND, MaxStack=3), 3000), ("absent", MC_ABSENT, 2000)], 250, 15000
+                ("cond", dict(MC_COND, MaxStack=3), 3000), ("absent", MC_ABSENT, 2000),
+                ("grpnest", dict(MC_GRPNEST, GroupIncs=S(S("b"), S("c")), DBA=S("x", "y")), 3000), ("lrepchain", MC_LREPCHAIN, 3000)], 250, 15000
     q_join = dict(MC_JOIN, MatcherKinds=S("none", "eq"), AggLabelSets=S(S("a")))
     q_wide = dict(MC_WIDE1, MatcherKinds=S("none", "eq", "empty", "reopt"), MatcherKindsB=S("none", "empty"), CmpOps=S(">="), ArithOps=S("*"),
                   MatchSets=S(S(), S("a")), GroupIncs=S(S(), S("b")), DBC=S(), DBVals=S(1))
-    return [("join", q_join, 1200), ("static", MC_STATIC, 1000), ("unary", dict(MC_UNARY, DBVals=S(1)), 1500), ("wide1", q_wide, 2000),
-            ("nest", MC_NEST, 700), ("nestbin", MC_NESTBIN, 700), ("cond", MC_COND, 900), ("absent", MC_ABSENT, 700)], 25, 1500
+    return [("join", q_join, 800), ("static", MC_STATIC, 800), ("unary", dict(MC_UNARY, DBVals=S(1)), 1200), ("wide1", q_wide, 1500),
+            ("nest", MC_NEST, 500), ("nestbin", MC_NESTBIN, 500), ("cond", MC_COND, 700), ("absent", MC_ABSENT, 500),
+            ("grpnest", MC_GRPNEST, 500), ("lrepchain", MC_LREPCHAIN, 500)], 25, 1200
 
 
 def skey(e, top=True):
@@ -222,7 +241,7 @@ def skey(e, top=True):
     if k == "fn":
         return "%s[%s%s%s%s](%s)" % (e["f"], e["dst"], e["src"], e["re"], e["repl"], skey(e["e"], False))
     if k == "agg":
-        return "%s_%s[%s](%s)" % (e["op"], e["mod"], "".join(sorted(e["ls"])), skey(e["e"], False))
+        return "%s_%s[%s%s](%s)" % (e["op"], e["mod"], "".join(sorted(e["ls"])), "+dup" if e.get("dup") else "", skey(e["e"], False))
     return "(%s %s%s %s[%s] %s[%s] %s)" % (skey(e["l"], False), e["op"], "_bool" if e["bool"] else "", e["vm"], "".join(sorted(e["ls"])),
                                            e["grp"], "".join(sorted(e["inc"])), skey(e["r"], False))
 
@@ -307,7 +326,7 @@ def run(ctx, prop, cases_override=None):
     cpath = write_ndjson(ctx.path("lflow_cases.ndjson"), uniq)
     # ---- EXEC
     tpath = ctx.path("lflow_trace.ndjson")
-    ndb = 400 if thorough else 80
+    ndb = 400 if thorough else 60
     ctx.vh("exec-lflow", cpath, tpath, env={"LF_NDB": str(ndb), "LF_NPREM": str(ndb), "LF_NCONC": "4" if thorough else "2"}, timeout=3000)
     trace = read_ndjson(tpath)
     if len(trace) != len(uniq):
